@@ -29,7 +29,7 @@ from .. import Undecided
 from ..expr import canon, unparse, call_name
 from ..model import stmt_text
 from .. import drivers as D
-from ..lts import Classifier, extract, compare, compile_spec, seq, alt, star, lit
+from ..lts import Classifier, extract, method_callee, compare, compile_spec, seq, alt, star, lit
 
 EXPLANATION = __doc__
 LEVEL_RULE = 'one obligation per (driver | handler | format site | clause); distinct = distinct (rule, function, construct)'
@@ -125,7 +125,7 @@ def check_packet_unpack(ctx, rule):
     for silent in (False, True):
         label = 'Packet.unpack, silent=%s' % silent
         try:
-            code = extract(fi.node, _UnpackEvents(tuple(names[:4]), silent))
+            code = extract(fi.node, _UnpackEvents(tuple(names[:4]), silent), callee=method_callee(repo, repo.cls('Packet')))
         except Undecided as e:
             ctx.undecided(rule, fi, label, str(e), fi.node.lineno)
             continue
